@@ -13,6 +13,38 @@ use std::convert::TryFrom;
 use std::iter::Peekable;
 use std::vec::IntoIter;
 
+/// The parser descends recursively into inline type definitions. Without a limit the nesting
+/// depth of the input decides the stack usage and a deeply nested input overflows the stack.
+const MAX_TYPE_NESTING: usize = 64;
+
+thread_local! {
+    static TYPE_NESTING: std::cell::Cell<usize> = std::cell::Cell::new(0);
+}
+
+struct TypeNestingGuard;
+
+impl TypeNestingGuard {
+    fn enter<T: Iterator<Item = Token>>(iter: &mut Peekable<T>) -> Result<Self, Error> {
+        let depth = TYPE_NESTING.with(|nesting| nesting.get());
+        if depth >= MAX_TYPE_NESTING {
+            Err(iter
+                .peek()
+                .cloned()
+                .map(Error::nesting_too_deep)
+                .unwrap_or_else(Error::unexpected_end_of_stream))
+        } else {
+            TYPE_NESTING.with(|nesting| nesting.set(depth + 1));
+            Ok(Self)
+        }
+    }
+}
+
+impl Drop for TypeNestingGuard {
+    fn drop(&mut self) {
+        TYPE_NESTING.with(|nesting| nesting.set(nesting.get() - 1));
+    }
+}
+
 impl Model<Asn<Unresolved>> {
     pub fn try_from(value: Vec<Token>) -> Result<Self, Error> {
         let mut model = Model::default();
@@ -293,6 +325,7 @@ impl Model<Asn<Unresolved>> {
         iter: &mut Peekable<T>,
         text: String,
     ) -> Result<Type<Unresolved>, Error> {
+        let _nesting = TypeNestingGuard::enter(iter)?;
         Ok(match text.to_ascii_lowercase().as_ref() {
             "integer" => Type::Integer(Integer::try_from(iter)?),
             "boolean" => Type::Boolean,
